@@ -146,12 +146,15 @@ var privKinds = []string{"rsa", "ed25519", "ed25519", "ecdsa256", "ecdsa384", "e
 
 // ---------------------------------------------------------------- oracles (independent walker)
 
-type oracles struct{ dec, rsavalid, edpub, ecpub string }
+type oracles struct {
+	dec, rsavalid, edpub, ecpub string
+	slow                        bool // a mutation turned the bcrypt round count into something expensive
+}
 
 func readStr(b []byte) ([]byte, []byte, bool) { return wire.ReadStr(b) }
 
 func computeOracles(file, pass []byte, mode string) oracles {
-	o := oracles{"none", "none", "none", "none"}
+	o := oracles{dec: "none", rsavalid: "none", edpub: "none", ecpub: "none"}
 	if !bytes.HasPrefix(file, []byte(magic)) {
 		return o
 	}
@@ -188,6 +191,10 @@ func computeOracles(file, pass []byte, mode string) oracles {
 		}
 		rounds := binary.BigEndian.Uint32(r)
 		if rounds > 2048 {
+			return o
+		}
+		if rounds > 64 {
+			o.slow = true
 			return o
 		}
 		cname := string(cn)
@@ -315,6 +322,10 @@ func parseLine(class, outerTag, mode string, file, pass []byte) string {
 }
 
 func emitParse(g *hx.Gen, class, outerTag, mode string, file, pass []byte) {
+	if computeOracles(file, pass, mode).slow {
+		g.Stat("skipped.expensive-bcrypt-rounds")
+		return
+	}
 	g.Stat("parse." + class)
 	g.Stat("outer." + outerTag)
 	g.Emit("%s", parseLine(class, outerTag, mode, file, pass))
@@ -323,7 +334,7 @@ func emitParse(g *hx.Gen, class, outerTag, mode string, file, pass []byte) {
 // ---------------------------------------------------------------- generator
 
 func gen(g *hx.Gen) {
-	n := g.Count(2000, 30000)
+	n := g.Count(2000, 25000)
 	r := g.R
 	nkg := 0
 	for i := 0; i < n; i++ {
